@@ -30,6 +30,7 @@ import (
 	"github.com/bufbuild/buf/private/pkg/storage/storagearchive"
 	"github.com/bufbuild/buf/private/pkg/storage/storagemem"
 	"github.com/bufbuild/buf/private/pkg/storage/storageos"
+	"github.com/bufbuild/buf/private/pkg/storage/storageutil"
 	"github.com/bufbuild/verifharness/internal/bk"
 	"github.com/bufbuild/verifharness/internal/hx"
 	"github.com/klauspost/compress/zip"
@@ -60,6 +61,12 @@ func pathLines(run *hx.Run, s string) {
 	}
 	run.Case("dir\t"+e, hx.Enc(normalpath.Dir(s)), true)
 	run.Case("base\t"+e, hx.Enc(normalpath.Base(s)), true)
+	// the glue every bucket actually calls (storageutil.ValidatePath = NormalizeAndValidate + "not the root")
+	if vp, verr := storageutil.ValidatePath(s); verr != nil {
+		run.Case("vpath\t"+e, errSp(bk.ErrClass(verr)), true)
+	} else {
+		run.Case("vpath\t"+e, "ok "+hx.Enc(vp), true)
+	}
 	// Components / StripComponents expect a normalized path.
 	comps := normalpath.Components(cleaned)
 	encs := make([]string, len(comps))
@@ -154,7 +161,14 @@ func sectionA(run *hx.Run, r *hx.Rand) {
 			all = append(all, s)
 		}
 	})
-	run.Set("exhaustive_alphabet", "ab./")
+	// backslashes and other separator look-alikes are ordinary name characters on unix: a second,
+	// smaller exhaustive sweep with '\\' in the alphabet
+	enumerate([]byte("a./\\"), run.N(5, 6), func(s string) {
+		if strings.ContainsRune(s, '\\') {
+			pathLines(run, s)
+		}
+	})
+	run.Set("exhaustive_alphabet", "ab./ and a./\\")
 	run.Set("exhaustive_max_len", maxLen)
 	// all pairs of strings of length <= 3, random pairs beyond
 	var small []string
@@ -218,7 +232,10 @@ func obfuscate(r *hx.Rand, p string) string {
 
 var escapes = []string{"..", "../", "../o", "../../o", "a/../..", "a/../../o", "/", "/o", "/etc/passwd",
 	"./..", "x/../../a/x", "..//o", "a/sub/../../../o", "", ".", "./", "a/..", "../sent", "../root_sibling/s",
-	"../outside.txt", "c/d/../../../outside.txt", "..a/../../outside.txt"}
+	"../outside.txt", "c/d/../../../outside.txt", "..a/../../outside.txt",
+	// separators that are NOT separators on unix: these are plain (odd) names inside the root
+	"..\\o", "..\\sent", "sub\\..\\..\\o", "a\\..\\..\\outside.txt", "..\\root_sibling\\s", "a/..\\..\\x", "..\\", "\\abs",
+	"．．/o", "..／o", "%2e%2e/o", "..%2fo"}
 
 // genPath returns a path argument: mostly a (possibly obfuscated) pool path relative to the
 // view, sometimes a directory, sometimes an escape attempt.
